@@ -57,7 +57,7 @@ def triage_generic(run, rep, native_fn, sig_prefix, extra_native=()):
                 if problems:
                     payload["model_definition"] = sc.describe()
                     payload["oracle_verdict"] = problems[:6]
-                    payload["inputs"] = {"shape": shp, "seed": run.seed, "extra_scenario": shp is None}
+                    payload["inputs"] = dict(getattr(fn, "replay_inputs", None) or {"shape": shp, "seed": run.seed, "extra_scenario": shp is None})
                     confirmed = True
                     what = (f"model with n,c,k,m={shp}: " if shp is not None else "") + problems[0]
                     break
@@ -67,6 +67,26 @@ def triage_generic(run, rep, native_fn, sig_prefix, extra_native=()):
             run.undecided.append(ob.name + " (refuted over uninterpreted algebra only; native runs agree with the spec)")
             continue
         run.findings.append(Finding(ob.name, sig_prefix, what, payload, confirmed, theory=ob.theory))
+
+
+def magnitude_native(seed):
+    """extra native scenario for the constructor contracts: |v| terms on symbols without assumptions (python back-end)"""
+
+    def run_it():
+        from checks import C03
+
+        return C03.native_jacobians(3, 1, 2, 2, seed=seed, magnitude=True)
+
+    run_it.replay_inputs = {"magnitude_jacobians": True, "shape": [3, 1, 2, 2], "seed": seed}
+    return run_it
+
+
+def replay_magnitude(inp):
+    from checks import C03
+
+    problems, sc = C03.native_jacobians(*inp["shape"], seed=inp.get("seed", 0), magnitude=True)
+    print("replay Jacobians of a model with |v| terms:", problems[:4] if problems else "all Jacobian entries equal the exact partial derivatives")
+    return not problems
 
 
 def noise_contracts(prefix):
@@ -82,15 +102,16 @@ def stateful_sweep(run, pid, prefixes, escalate):
 
     # (linear model?, editing threshold, symbols declared with sympy assumptions?)
     # (linear model?, editing threshold, symbols with sympy assumptions?, scale of prior and sensor noise)
-    variants = [(True, 3.0, False, None), (False, 3.0, True, None), (False, None, False, 1e-9)] + ([(True, None, True, None), (False, 0.5, False, None), (False, 3.0, False, 1e-9)] if escalate else [])
+    # (linear model?, editing threshold, symbols with sympy assumptions?, scale of prior and sensor noise, |.| terms on plain symbols?)
+    variants = [(True, 3.0, False, None, False), (False, 3.0, True, None, False), (False, None, False, 1e-9, False), (False, 3.0, False, None, True)] + ([(True, None, True, None, False), (False, 0.5, False, None, False), (False, 3.0, False, 1e-9, False), (False, None, False, None, True)] if escalate else [])
     fails = 0
-    for linear, k_edit, assume, scale in variants:
+    for linear, k_edit, assume, scale, magnitude in variants:
         run.native_runs += 1
-        problems, sc = kalman.native_sequence(run.seed, linear=linear, k_edit=k_edit, assumptions=assume, scale=scale)
+        problems, sc = kalman.native_sequence(run.seed, linear=linear, k_edit=k_edit, assumptions=assume, scale=scale, magnitude=magnitude)
         mine = [p for p in problems if p.startswith(tuple(prefixes)) or p.startswith(("constructing", "sequence raised"))]
         if mine:
             fails += 1
-            run.findings.append(Finding(f"{pid}.py.native_sequence", "stateful", f"one filter instance, {'linear' if linear else 'generic'} model{' with real/positive symbols' if assume else ''}, editing threshold {k_edit}{f', prior and sensor noise scaled by {scale}' if scale else ''}: {mine[0]}", {"language": "python", "inputs": {"sequence": True, "seed": run.seed, "linear": linear, "k_edit": k_edit, "assumptions": assume, "scale": scale}, "model_definition": sc.describe(), "oracle_verdict": mine[:6]}, True))
+            run.findings.append(Finding(f"{pid}.py.native_sequence", "stateful", f"one filter instance, {'linear' if linear else 'generic'} model{' with real/positive symbols' if assume else ''}{' with |v| terms on symbols without assumptions' if magnitude else ''}, editing threshold {k_edit}{f', prior and sensor noise scaled by {scale}' if scale else ''}: {mine[0]}", {"language": "python", "inputs": {"sequence": True, "seed": run.seed, "linear": linear, "k_edit": k_edit, "assumptions": assume, "scale": scale, "magnitude": magnitude}, "model_definition": sc.describe(), "oracle_verdict": mine[:6]}, True))
             break
     run.bounded.append({"what": "stateful native sequence on ONE filter instance (two sensors of different reading dimension): Jacobians at three points with different dt, predictions at dt in {dt, 0, dt/2, 2^-40}, a chain of three predictions fed back into each other (inputs and earlier outputs must not change), six alternating near/far sensor updates; each result against the exact oracle at its own inputs", "bound": f"{len(variants)} sequences (linear and generic models)", "failures": fails, "counted_as_proved": False})
     return fails
@@ -99,6 +120,6 @@ def stateful_sweep(run, pid, prefixes, escalate):
 def replay_sequence(inp):
     from replay import kalman
 
-    problems, sc = kalman.native_sequence(inp.get("seed", 0), linear=inp.get("linear", False), k_edit=inp.get("k_edit"), assumptions=inp.get("assumptions", False), scale=inp.get("scale"))
+    problems, sc = kalman.native_sequence(inp.get("seed", 0), linear=inp.get("linear", False), k_edit=inp.get("k_edit"), assumptions=inp.get("assumptions", False), scale=inp.get("scale"), magnitude=inp.get("magnitude", False))
     print("replay stateful sequence:", problems[:4] or "every call agrees with the oracle")
     return not problems
